@@ -33,6 +33,7 @@ import IvpModel.Proofs.ScaleDopri5
 import IvpModel.Proofs.ScaleDop853
 import IvpModel.Proofs.ScaleRk23
 import IvpModel.Proofs.ScaleRk4
+import IvpModel.Proofs.DupDopri5
 
 noncomputable section
 variable {K : Type} [Field K] [LinearOrder K] [IsStrictOrderedRing K] [SqrtPow K]
@@ -264,6 +265,34 @@ example {n : Nat} (c : K) (A : K → Fin n → Fin n → K) :
   apply Finset.sum_congr rfl
   intro k _
   ring
+
+/-- **Whole runs of the DOPRI5 / DOP853 skeleton on `m` stacked copies of a system** (given first step), for every pair of kernels
+    related by the duplication laws `Ctl.KDup`: the run of any system of dimension `m·n` that maps stacked states to the stacked
+    derivative has the step points, step sizes, error estimates, statuses and counters of the single system, and every state it
+    reports is the stacked state. -/
+theorem c13_copies_hairer_whole_run {σ : Type} {n : Nat} (m : Nat) (hn : 0 < n) (P : Ctl.HParams K n) (Kn : Ctl.HKernel K n)
+    (Kn' : Ctl.HKernel K (m * n)) (KD : Ctl.KDup m hn Kn Kn') (F : Ctl.Rhs K (m * n)) (f : Ctl.Rhs K n) (hF : Ctl.DupRhs m hn F f)
+    (Ob : Ctl.Obs σ K (m * n)) (ob : Ctl.Obs σ K n) (hOb : Ctl.DupObs m hn Ob ob) (obs0 : σ) (x0 : K) (y0 : Ctl.Vec K n) (h0 : K)
+    (hinit : Ctl.Rhs K n → Ctl.Vec K n → K × Array (K × Ctl.Vec K n))
+    (hinit' : Ctl.Rhs K (m * n) → Ctl.Vec K (m * n) → K × Array (K × Ctl.Vec K (m * n))) (fo hl : K) (fuel : Nat) :
+    Ctl.hSolve (Ctl.castP m P) Kn' F Ob obs0 x0 (Ctl.dupV m hn y0) (some h0) hinit' fo hl fuel
+      = (Ctl.hSolve P Kn f ob obs0 x0 y0 (some h0) hinit fo hl fuel).map (Ctl.dResult m hn) :=
+  Ctl.hSolve_dup m hn P Kn Kn' KD F f hF Ob ob hOb obs0 x0 y0 h0 hinit hinit' fo hl fuel
+
+/-- **Whole runs of DOPRI5 on `m ≥ 1` independent copies of a system** (the block-diagonal system `Ctl.blockRhs`, stacked
+    tolerances, given first step; the automatic first step depends on `m`: open finding c13-copies-autostep). -/
+theorem c13_copies_dopri5_whole_run {σ : Type} {n : Nat} (m : Nat) (hm : 0 < m) (hn : 0 < n) (L : Ctl.HLits K)
+    (xend posneg uround safety scaleMin scaleMax beta hmax : K) (nmax nstiff : Nat) (dense : Bool) (atol rtol : Ctl.Vec K n)
+    (f : Ctl.Rhs K n) (ob : Ctl.Obs σ K n) (obs0 : σ) (x0 : K) (y0 : Ctl.Vec K n) (h0 : K)
+    (hinit : Ctl.Rhs K n → Ctl.Vec K n → K × Array (K × Ctl.Vec K n))
+    (hinit' : Ctl.Rhs K (m * n) → Ctl.Vec K (m * n) → K × Array (K × Ctl.Vec K (m * n))) (fo hl : K) (fuel : Nat) :
+    Ctl.hSolve (Ctl.dopri5Params L xend posneg uround safety scaleMin scaleMax beta hmax nmax nstiff dense)
+        (Ctl.dopri5Kernel (Ctl.dupV m hn atol) (Ctl.dupV m hn rtol)) (Ctl.blockRhs m hn f) (Ctl.firstCopyObs m hn hm ob) obs0 x0
+        (Ctl.dupV m hn y0) (some h0) hinit' fo hl fuel
+      = (Ctl.hSolve (Ctl.dopri5Params L xend posneg uround safety scaleMin scaleMax beta hmax nmax nstiff dense) (Ctl.dopri5Kernel atol rtol)
+        f ob obs0 x0 y0 (some h0) hinit fo hl fuel).map (Ctl.dResult m hn) :=
+  Ctl.dopri5Solve_dup m hn hm L xend posneg uround safety scaleMin scaleMax beta hmax nmax nstiff dense atol rtol (Ctl.blockRhs m hn f) f
+    (Ctl.blockRhs_dup m hn f) (Ctl.firstCopyObs m hn hm ob) ob (Ctl.firstCopyObs_dup m hn hm ob) obs0 x0 y0 h0 hinit hinit' fo hl fuel
 
 /-- BDF's norm (translated from bdf.rs) is invariant under a common scaling of values and scales, whatever their size -/
 theorem c13_scale_bdf_norm {n : Nat} (c : K) (hc : c ≠ 0) (values scale : Vector K n) (hnz : ∀ i : Fin n, scale[i] ≠ 0) :
